@@ -6,7 +6,8 @@ CONSTANTS
   RootOf <- MCRootOf1
   Names <- MCNames1
   PutNodes <- MCPutNodes1
-  MaxMods = 2
+  RenameTo <- MCRenameTo
+  MaxMods = 1
   MaxFaults = 1
 INVARIANTS
   C17_Fidelity
